@@ -429,6 +429,8 @@ M('c04-size-basis', 'C04', SUBC, "                size - 1,\n                bas
 # states (a memo, an argument copy, a validation order, a declared flag); the folds show the stated behaviour unchanged on the whole
 # family, so silence is the right verdict.
 
+# revert of the repair F36
+M('c02-revert-f36', 'C02', CIRC, "            if (\n                gate_label in block.gates\n                or gate_label in block.inputs\n                or gate_label in block.outputs\n            ):", "            if gate_label in block.gates or gate_label in block.inputs:", 'C02.HIST')
 # reverts of the repairs F02/F03/F23/F30-F33, F35 (each must be reported again)
 M('c04-revert-f03', 'C04', SUBC, "                    circuit._remove_user(output, user)\n                    circuit._add_user(new_output, user)", "                    circuit._gate_to_users[new_output].append(user)", None)
 M('c04-revert-f02', 'C04', SUBC, "                outputs_negation_mapping[output] = found_patterns[MAX_PATTERN - pattern]", "                outputs_mapping[output] = found_patterns[MAX_PATTERN - pattern]", 'C04.FOLD')
